@@ -72,6 +72,9 @@ def build_event(c, projection):
           "lazy_vs_member_ppb": []}
     try:
         pot, refs = make(c, projection)
+        import zlib
+        from ..routes import reroute
+        pot, ev["route"] = reroute(pot, zlib.crc32(json.dumps([c, projection], sort_keys=True, default=str).encode()))     # through a copy / deepcopy / pickle
         f, l = c["first"], c["last"]
         e = np.asarray(pot.build(f, l, lazy=False).array)
         z = np.asarray(pot.build(f, l, lazy=True).compute().array)
